@@ -13,7 +13,8 @@
 
    `lk = true` is the code as written today (fix commit, see DESIGN.md §9 C09): Send = RLock; read closed;
    [yield send.checked]; chan send; RUnlock — Close = Lock; read closed; closed = true;
-   [yield close.checked]; close(chan); Unlock — IsClosed = RLock; read; RUnlock — Receive: chan receive.
+   [yield close.checked]; close(chan); Unlock — IsClosed = one atomic read of `closed`, no lock (fix 162a167) —
+   Receive: chan receive — Len / Cap: len(chan) / cap(chan), no lock.
    `lk = false` is the code before the fix (no lock steps), kept for the refutation witnesses.  Close's
    read of `closed` and its write `closed = true` are ONE step here: exact under the write lock (lk = true);
    for lk = false it under-approximates the old code (two closers could both pass the check), which
@@ -31,8 +32,7 @@ Inductive pcst :=
 | CWait                   (* Close: mu.Lock() called: the writer is announced (new readers are held back) and waits for the active readers to leave *)
 | CLocked                 (* Close: write lock held *)
 | CChecked                (* Close: closed = true written; at yield point close.checked *)
-| CUnlock
-| ILocked | IUnlock (b : bool).
+| CUnlock.
 
 Record thread := { prog : list op; pc : pcst; results : list res }.
 Record state := {
@@ -43,7 +43,7 @@ Record state := {
 }.
 
 Definition holds_r (p : pcst) : bool :=
-  match p with SLocked | SChecked | SParked | SUnlock _ | ILocked | IUnlock _ => true | _ => false end.
+  match p with SLocked | SChecked | SParked | SUnlock _ => true | _ => false end.
 Definition holds_w (p : pcst) : bool := match p with CLocked | CChecked | CUnlock => true | _ => false end.
 Definition holds_any (p : pcst) : bool := holds_r p || holds_w p.
 (* sync.RWMutex gives a waiting writer preference: once Lock() has been called, RLock() calls block *)
@@ -78,8 +78,9 @@ Definition step (lk : bool) (s : state) (i : nat) : option state :=
       | OClose :: _ =>
           (* writers queue on the RWMutex's inner mutex *)
           if lk && existsb (fun u => pending_w (pc u)) (thr s) then None else Some (set_thr s i (goto t CWait))
-      | OIsClosed :: _ =>
-          if lk && existsb (fun u => pending_w (pc u)) (thr s) then None else Some (set_thr s i (goto t ILocked))
+      | OIsClosed :: _ => Some (set_thr s i (ret t (RIs (wclosed s))))       (* atomic load, never blocks *)
+      | OLen :: _ => Some (set_thr s i (ret t (RNum (List.length (buf c)))))  (* len(chan): buffered values only *)
+      | OCap :: _ => Some (set_thr s i (ret t (RNum (cap c))))
       | ORecv :: _ =>
           match buf c with
           | b :: rest =>
@@ -126,8 +127,6 @@ Definition step (lk : bool) (s : state) (i : nat) : option state :=
                      wclosed := wclosed s; thr := updt (thr s) i (goto t CUnlock); crashed := false;
                      accepted := accepted s; received := received s |}
     | CUnlock => Some (set_thr s i (ret t RClosed))
-    | ILocked => Some (set_thr s i (goto t (IUnlock (wclosed s))))
-    | IUnlock b => Some (set_thr s i (ret t (RIs b)))
     end
   end.
 
